@@ -42,7 +42,7 @@ REACH = {
     "quick": {"files_checked": 1500, "zero_byte_record_files": 30, "empty_files": 20,
               "interval_exact": 30, "non_record_top": 100, "writeonly_outputs": 200,
               "readonly_inputs": 200, "realfile_io": 100, "writer_class_flush_groupings": 300,
-              "interleaved_reader_pairs": 150},
+              "interleaved_reader_pairs": 150, "error_kind_schemas": 50, "block_copied_files": 300},
     "thorough": {"files_checked": 20000},
 }
 
@@ -123,6 +123,28 @@ def run_config(sh, fa, case, cfg, scratch, tag):
             w.flush()
         st, err = guard(write_grouped)
         sh.count("writer_class_flush_groupings")
+    elif cfg.get("block_copy"):
+        # a third way of producing the file: copying the blocks of a donor file, some of them
+        # looked at (partly or wholly iterated) before they are copied
+        def copy_blocks():
+            from fastavro.write import Writer
+            donor = io.BytesIO()
+            fa.writer(donor, copy.deepcopy(js), list(recs), codec=cfg["block_copy"], sync_interval=cfg["interval"])
+            donor.seek(0)
+            wkw = dict(codec=kw["codec"], sync_interval=kw["sync_interval"], metadata=kw["metadata"])
+            if "sync_marker" in kw:
+                wkw["sync_marker"] = kw["sync_marker"]
+            w = Writer(fo, schema_arg, **wkw)
+            for k, block in enumerate(fa.block_reader(donor)):
+                if k % 2 == 0:
+                    it = iter(block)
+                    next(it, None)
+                    if k % 4 == 0:
+                        list(it)
+                w.write_block(block)
+            w.flush()
+        st, err = guard(copy_blocks)
+        sh.count("block_copied_files")
     else:
         # records may be any iterable: a list, or a one-shot generator
         recs_arg = list(recs) if cfg["interval"] % 2 else (r for r in list(recs))
@@ -339,6 +361,8 @@ def one_case(sh, fa, rng, case, scratch, tag, full_matrix=False):
                    "marker": bytes(rng.getrandbits(8) for _ in range(16)) if rng.random() < 0.5 else b"",
                    "level": rng.choice([None, 0, 1, 6, 9]) if codec == "deflate" else None,
                    "flushes": sorted(rng.sample(range(len(recs)), rng.randint(0, len(recs)))) if recs and rng.random() < 0.3 else None}
+            if cfg["flushes"] is None and recs and rng.random() < 0.12:
+                cfg["block_copy"] = rng.choice(CODECS)
             sh.case(h64(schema_shape(js), min(len(recs), 5), codec, intervals.index(iv), out, inp, cfg["parsed"]),
                     bool(recs) or out != "bytesio" or codec != "null")
             got = run_config(sh, fa, case, cfg, scratch, "%s-%d" % (tag, n))
@@ -382,6 +406,11 @@ def run_shard(spec):
     while i < spec["n"] and not sh.out_of_time():
         i += 1
         case = gen_case(rng, dict(bytes_defaults=0.0), dict(size_budget=80, big=0.01))
+        if rng.random() < 0.1 and "record" in repr(case["schema"]):
+            from ..gen.schema import errorize
+            case["schema"] = errorize(case["schema"], rng)
+            case["node"], case["env"] = RS.build(case["schema"])
+            sh.count("error_kind_schemas")
         node = case["node"]
         nrec = rng.choice([0, 1, 1, 2, 3, 5, 8, 20])
         recs = [case["datum"]]
